@@ -363,8 +363,11 @@ fn exec_party_op(op: &str, p: &mut Party, m: &Kv, flags: &[&str], regs: &mut Reg
             let st = core::mem::replace(&mut p.st, St::Gone);
             match st {
                 St::Hs(h) => {
+                    // `tf`: use the public TryFrom conversions instead of the into_* methods
+                    let tf = flags.contains(&"tf");
                     if op == "to_transport" {
-                        match h.into_transport_mode() {
+                        let r = if tf { TransportState::try_from(*h) } else { h.into_transport_mode() };
+                        match r {
                             Ok(t) => {
                                 p.st = St::Tr(Box::new(t));
                                 Ok(OpOut::r("ok"))
@@ -372,7 +375,8 @@ fn exec_party_op(op: &str, p: &mut Party, m: &Kv, flags: &[&str], regs: &mut Reg
                             Err(e) => Ok(OpOut::r(errs(e))),
                         }
                     } else {
-                        match h.into_stateless_transport_mode() {
+                        let r = if tf { StatelessTransportState::try_from(*h) } else { h.into_stateless_transport_mode() };
+                        match r {
                             Ok(t) => {
                                 p.st = St::Sl(Box::new(t));
                                 Ok(OpOut::r("ok"))
